@@ -59,5 +59,9 @@ def load_all():
     mods = []
     here = os.path.dirname(os.path.abspath(__file__))
     for f in sorted(glob.glob(os.path.join(here, "pipe_*.py"))):
-        mods.append(importlib.import_module(os.path.basename(f)[:-3]))
+        try:
+            mods.append(importlib.import_module(os.path.basename(f)[:-3]))
+        except Exception as e:      # a broken family must not take the other checks down with it
+            import sys
+            print("warning: cannot load %s: %s" % (os.path.basename(f), e), file=sys.stderr)
     return mods
